@@ -69,6 +69,10 @@ class Peer:
 
     def answer_field(self, n, index, placeholder):
         fs = self._field_style(n)
+        if isinstance(placeholder, str) and has_line_break(placeholder):
+            # A2: an answer never contains line breaks, also when the placeholder it is
+            # made from does (`${1:a<LF>b}`): this editor flattens such placeholders
+            placeholder = ''.join(' ' if ch in LINE_BREAKS else ch for ch in placeholder)
         if fs == 'identity':
             return placeholder
         if fs == 'textmate':
